@@ -127,6 +127,10 @@ type Program struct {
 	// same goroutine right before the observed Execute, which must not see anything of it.
 	PriorEntry string  `json:"prior_entry,omitempty"`
 	PriorData  *Recipe `json:"prior_data,omitempty"`
+	// ForeignLayout != "": the Set shares its Cache object with another Set that has this escaper
+	// ("html" | "nil" | "custom") and no globals, and that other Set has already loaded every template some
+	// file extends. The Set a template was obtained from governs its execution, whoever parsed its layout.
+	ForeignLayout string `json:"foreign_layout,omitempty"`
 }
 
 // ---- constructors used by generators ----
